@@ -7,7 +7,14 @@ use vp::props::{c01, c02};
 fuzz_target!(|data: &[u8]| {
     let mut u = Unstructured::new(data);
     let Ok(sel) = u.arbitrary::<u8>() else { return };
-    if sel % 2 == 0 {
+    // FUZZ_PROP restricts the campaign to one property's branch (set by the thorough tier)
+    let only = std::env::var("FUZZ_PROP").unwrap_or_default();
+    let first = match only.as_str() {
+        "C01" => true,
+        "C02" => false,
+        _ => sel % 2 == 0,
+    };
+    if first {
         if let Ok(case) = vp::decode::c01_case(&mut u) {
             vp::fuzzrt::fuzz_one::<c01::Hist>("C01", &case);
         }
